@@ -246,7 +246,7 @@ def _judge_traces(ctx, seqs, labels):
             continue
         traces.append(tr)
         keep.append((evs, obs, facts, label))
-    verdicts = ctx.validate_traces("ReactionTextTrace", "ReactionTextTrace.cfg", traces, chunk=14000)
+    verdicts = ctx.validate_traces("ReactionTextTrace", "ReactionTextTrace.cfg", traces, chunk=3000)
     for tr, (evs, obs, facts, label), (v, pos, clause) in zip(traces, keep, verdicts):
         txt = "\n".join(obs["doc"])
         ctx.ran([txt, obs["cfg"], obs["allowed"]], nontrivial=_nontrivial_events(evs))
